@@ -84,9 +84,23 @@ _WARN_THRESHOLD = int(MAX_ALLOCS * 0.8)
 # IPC stream EOS marker: continuation token (0xFFFFFFFF) + 0-length metadata
 _IPC_EOS = b"\xff\xff\xff\xff\x00\x00\x00\x00"
 
-# Overhead for IPC stream framing (schema message + EOS) added to
-# ipc.get_record_batch_size() when estimating the allocation size.
-_STREAM_OVERHEAD = 4096
+
+def _ipc_stream_size(batch: pa.RecordBatch) -> int:
+    """Exact byte size of the IPC stream ``allocate_and_write`` emits for *batch*.
+
+    ``get_record_batch_size() + a fixed allowance`` is not a bound: the
+    schema message grows with column count, name length and schema
+    metadata, and dictionaries nested in list/struct columns add
+    dictionary messages.  Run the same writer against a counting sink
+    instead.  ``MockOutputStream`` copies no body bytes, so this costs
+    what ``get_record_batch_size`` (itself a counting pass) did, plus
+    encoding the schema message once more.
+    """
+    counter = pa.MockOutputStream()
+    writer = new_ipc_stream(counter, batch.schema)
+    writer.write_batch(batch)
+    writer.close()
+    return int(counter.size())
 
 
 def _has_dictionary_columns(schema: pa.Schema) -> bool:
@@ -110,12 +124,13 @@ class _ShmSink(RawIOBase):
     requirements.
     """
 
-    def __init__(self, buf: memoryview, start: int) -> None:
-        """Initialize targeting *buf* starting at byte offset *start*."""
+    def __init__(self, buf: memoryview, start: int, limit: int | None = None) -> None:
+        """Initialize targeting *buf* from byte offset *start* up to *limit* (exclusive)."""
         super().__init__()
         self._buf = buf
         self._pos = start
         self._start = start
+        self._limit = len(buf) if limit is None else limit
 
     def write(self, data: bytes | bytearray | memoryview | pa.Buffer) -> int:  # type: ignore[override]  # ty: ignore[invalid-method-override]
         """Write *data* into the shared memory region."""
@@ -126,6 +141,10 @@ class _ShmSink(RawIOBase):
         else:
             mv = memoryview(data).cast("B") if data.format != "B" else data
         n = len(mv)
+        # Never write outside the region this sink was given: the bytes
+        # behind it belong to another live batch.
+        if self._pos + n > self._limit:
+            raise ValueError(f"SHM write of {n} bytes at {self._pos} exceeds region end {self._limit}")
         self._buf[self._pos : self._pos + n] = mv
         self._pos += n
         return n
@@ -432,14 +451,20 @@ class ShmSegment:
 
         if not _has_dictionary_columns(batch.schema):
             # Non-dict: write IPC stream directly into SHM via _ShmSink
-            estimated = ipc.get_record_batch_size(batch) + _STREAM_OVERHEAD
-            offset = self._allocator.allocate(estimated)
+            size = _ipc_stream_size(batch)
+            offset = self._allocator.allocate(size)
             if offset is None:
                 return None
-            sink = _ShmSink(shm_buf, offset)
-            writer = new_ipc_stream(sink, batch.schema)
-            writer.write_batch(batch)
-            writer.close()
+            sink = _ShmSink(shm_buf, offset, offset + size)
+            try:
+                writer = new_ipc_stream(sink, batch.schema)
+                writer.write_batch(batch)
+                writer.close()
+            except BaseException:
+                # No pointer batch will ever reference this region, so
+                # nobody could free it: do not leave the entry behind.
+                self._allocator.free(offset)
+                raise
             return offset, sink.bytes_written
 
         # Dict path: serialize to buffer, then copy
